@@ -475,6 +475,15 @@ def main(pid, tier, seed):
     for k in range(n_rules):
         path = os.path.join(work, 'r%d' % k)
         desc = sessrules.make(rng, path, with_m=True, m_last=(k % 3 == 2), omen_model=(3 if k % 3 == 1 else None))
+        if k % 3 == 0:
+            # a text file need not end with a newline: the last line of these tables is a line like any other
+            for rel in (('Omen', 'omen_keyspace.txt'), ('Omen', 'pcfg_omen_prob.txt'), ('Grammar', 'grammar.txt')):
+                fnl = os.path.join(path, *rel)
+                with open(fnl, 'rb') as f_:
+                    data_ = f_.read()
+                if data_.endswith(b'\n'):
+                    with open(fnl, 'wb') as f_:
+                        f_.write(data_[:-1].rstrip(b'\r'))
         E, PTS = sessrules.expected(path, with_pts=True)
         if pid == 'C12':
             scripts = [['q', 'block'], ['', 'q', 'block'], ['h', 'block'], ['EOF'], ['', 'EOF'], ['x', 'q', 'block'], ['block']]
